@@ -72,6 +72,10 @@ def main(argv=None):
     ap.add_argument("--tier", default=os.environ.get("VERIF_TIER", "quick"))
     ap.add_argument("--seed", type=int, default=int(os.environ.get("VERIF_SEED", "0") or 0))
     a = ap.parse_args(argv)
+    os.environ.pop("VERIF_SCRATCH_ROOT", None)
+    from . import tlc
+
+    tlc.scratch_root()      # created (and exported to the worker processes) before any pool starts; removed when the check exits
     try:
         if a.what == "replay":
             from . import replay
